@@ -27,6 +27,10 @@ property and writes its own evidence file):
                 is reachable (prefix `"${` `{`^(e-1) ... `;`^rest), which is also how a counterexample of a
                 step is turned into a complete text for the native replay.
   eof/L=k       at cursor == k: `is_eof` holds (so the loop ends exactly at the end of the text).
+  parse/L=k     `Parser::from_string(text).parse()` - lexer, recursive-descent parser with error recovery, event list,
+                `build_tree`, `File::new` - for EVERY well-formed UTF-8 text of k bytes: no panic (this includes the
+                parser's own `assert_eq!(root.text_length, content.len())`), error spans inside the text; the returned green
+                tree is walked: node length == sum of the children, token texts concatenated == the text, byte for byte.
   lines/L=k     `compute_line_starts(text)` for every text of k bytes, `compute_line_column` for every offset
                 0..k against the table, `get_line_content` for every line number 0..lines+1.
 """
@@ -127,7 +131,7 @@ class Layout:
         return self.result.index(name)
 
 
-def make_interp(par, lay, parser=False):
+def make_interp(par, lay, parser=False, progress_observer=False):
     it = LexInterp(par, (MODELS_PARSE + MODELS) if parser else MODELS)
     it.enum_discr["TokenKind"] = lay.token
     it.enum_discr["ParseError"] = lay.perr
@@ -149,6 +153,20 @@ def make_interp(par, lay, parser=False):
                 raise Inconclusive("keywords_in_map did not run concretely to a HashMap: %r" % (cache["v"],))
         return cache["v"]
     it.hooks[kw.name] = kw_hook
+    if progress_observer:
+        rt = par.find("Lexer::read_token")
+        OFF = lay.lx("offset")
+
+        def rt_hook(it_, ctx, fn, args):
+            # observer around the real read_token: a call that returns without moving the cursor would make `lex`
+            # loop forever (and this executor with it); it is reported instead
+            before = M.deref(args[0]).fields[OFF].conc()
+            r = it_.exec(ctx, [it_.new_frame(fn, args)])
+            after = M.deref(args[0]).fields[OFF].conc()
+            if before is not None and after is not None and after <= before:
+                raise NoProgress(before)
+            return r
+        it.hooks[rt.name] = rt_hook
     return it
 
 
@@ -290,6 +308,21 @@ def cvc5_verdict(pid, solver, timeout_s, name):
     if o and o[0] in ("sat", "unsat"):
         return o[0]
     return None
+
+
+def set_bound(ctx, out, default):
+    """bound on the MIR blocks of this path.  After the first path of this worker that ran into the bound (a non-termination
+    candidate - each candidate is decided by the native replay, not by the bound), the bound drops to 8x the longest
+    terminating path seen, so that a lexer/parser that loops on most inputs does not cost the full bound on every path."""
+    ctx.ex.max_steps = out.__dict__.get("_bound", default)
+
+
+def note_terminated(ctx, out):
+    out.__dict__["_longest"] = max(out.__dict__.get("_longest", 0), ctx.steps)
+
+
+def note_diverged(ctx, out):
+    out.__dict__["_bound"] = max(8 * out.__dict__.get("_longest", 0), 6000)
 
 
 class Asserter:
@@ -457,23 +490,10 @@ def check_lex_result(A, it, lay, ctx, out, bs, r):
 
 
 def whole_body(par, lay, pid, family, label, spec):
-    it = make_interp(par, lay)
-    rt = par.find("Lexer::read_token")
-    OFF = lay.lx("offset")
-
-    def rt_hook(it_, ctx, fn, args):
-        # observer around the real read_token: a call that returns without moving the cursor would make `lex`
-        # loop forever (and this executor with it); it is reported instead
-        before = M.deref(args[0]).fields[OFF].conc()
-        r = it_.exec(ctx, [it_.new_frame(fn, args)])
-        after = M.deref(args[0]).fields[OFF].conc()
-        if before is not None and after is not None and after <= before:
-            raise NoProgress(before)
-        return r
-    it.hooks[rt.name] = rt_hook
+    it = make_interp(par, lay, progress_observer=True)
 
     def body(ctx, out):
-        ctx.ex.max_steps = STEP_BOUND
+        set_bound(ctx, out, STEP_BOUND)
         bs, inputs = text_value(ctx, spec)
         A = Asserter(pid, out, ctx, inputs, {"family": family, "label": label, "spec": spec})
         try:
@@ -489,9 +509,11 @@ def whole_body(par, lay, pid, family, label, spec):
         except Inconclusive as e:
             if "step bound exceeded" not in str(e):
                 raise
-            A.violation("both", "no-termination", "lex does not terminate within %d MIR blocks on a text of %d bytes (%s)" % (STEP_BOUND, len(bs), e))
+            A.violation("both", "no-termination", "lex does not terminate within %d MIR blocks on a text of %d bytes (%s)" % (ctx.ex.max_steps, len(bs), e))
+            note_diverged(ctx, out)
             stats(out, it)
             return
+        note_terminated(ctx, out)
         width_witnesses(ctx, out, bs)
         check_lex_result(A, it, lay, ctx, out, bs, r)
         stats(out, it)
@@ -505,7 +527,7 @@ def step_body(par, lay, pid, L, p):
     dmax = min(MAX_DEPTH, p // 3)
 
     def body(ctx, out):
-        ctx.ex.max_steps = STEP_BOUND
+        set_bound(ctx, out, STEP_BOUND)
         spec = [None] * L
         bs, inputs = text_value(ctx, spec)
         if not ctx.branch(boundary(bs, p)):
@@ -546,9 +568,11 @@ def step_body(par, lay, pid, L, p):
         except Inconclusive as e:
             if "step bound exceeded" not in str(e):
                 raise
-            A.violation("both", "no-termination", "read_token does not return within %d MIR blocks (%s)" % (STEP_BOUND, e))
+            A.violation("both", "no-termination", "read_token does not return within %d MIR blocks (%s)" % (ctx.ex.max_steps, e))
+            note_diverged(ctx, out)
             stats(out, it)
             return
+        note_terminated(ctx, out)
         new = cell.v
         off2, errs2, br2 = new.fields[OFF], new.fields[ERR], new.fields[BR]
         nm = token_name(tok)
@@ -728,10 +752,10 @@ def green_walk(node, dump, toks, conds):
 
 
 def parse_body(par, lay, pid, L):
-    it = make_interp(par, lay, parser=True)
+    it = make_interp(par, lay, parser=True, progress_observer=True)
 
     def body(ctx, out):
-        ctx.ex.max_steps = 4 * STEP_BOUND
+        set_bound(ctx, out, 4 * STEP_BOUND)
         spec = [None] * L
         bs, inputs = text_value(ctx, spec)
         A = Asserter(pid, out, ctx, inputs, {"family": "parse", "label": "parse/L=%d" % L, "spec": spec})
@@ -742,12 +766,18 @@ def parse_body(par, lay, pid, L):
             A.violation("both", "parse-panic", "Parser::from_string(text).parse() panics: %s (%s)" % (e.msg, e.where))
             stats(out, it)
             return
+        except NoProgress as e:
+            A.violation("both", "no-progress", "Parser::from_string does not terminate: %s" % e)
+            stats(out, it)
+            return
         except Inconclusive as e:
             if "step bound exceeded" not in str(e):
                 raise
-            A.violation("both", "parse-no-termination", "the parser does not return within %d MIR blocks on a text of %d bytes (%s)" % (4 * STEP_BOUND, L, e))
+            A.violation("both", "parse-no-termination", "the parser does not return within %d MIR blocks on a text of %d bytes (%s)" % (ctx.ex.max_steps, L, e))
+            note_diverged(ctx, out)
             stats(out, it)
             return
+        note_terminated(ctx, out)
         if not (isinstance(r, Tup) and len(r.fields) == 2 and isinstance(r.fields[1], VecV)):
             raise Inconclusive("Parser::parse returned %r" % (r,))
         payload = unbox(unbox(r.fields[0]).fields[0])
@@ -845,7 +875,7 @@ def native_run(nat, sub, text, timeout=20):
     return out
 
 
-def native_batch(nat, sub, texts, timeout=120):
+def native_batch(nat, sub, texts, timeout=60):
     """one process for many texts (translator validation); falls back to single runs when the batch does not finish"""
     try:
         p = subprocess.run(_cmd(nat) + ["lex", sub + "-batch"] + [t.hex() or "-" for t in texts], stdout=subprocess.PIPE, stderr=subprocess.PIPE,
@@ -1020,8 +1050,15 @@ def replay_violation(nat, pid, v):
     except UnicodeDecodeError:
         return False, {"text_hex": text.hex(), "observed": "witness is not UTF-8 (encoding bug)"}
     sub = {"lines": "lines", "parse": "parse"}.get(v["family"], "tokens")
-    res = native_run(nat, sub, text)
-    bad = JUDGES[sub](text, res, pid)
+    cands = [text]
+    if v["kind"] == "brace-invariant":
+        # a broken invariant of the brace stack is latent: it shows when the next braces are read
+        cands += [text + b"}" * k for k in (1, 2, 3)] + [text + b"{}"]
+    for text in cands:
+        res = native_run(nat, sub, text)
+        bad = JUDGES[sub](text, res, pid)
+        if bad:
+            break
     detail = {"text_hex": text.hex(), "text": text.decode("utf-8"), "cmd": ["lex", sub, text.hex()], "kind": v["kind"], "harness": v.get("label"),
               "real": {k: x for k, x in res.items() if not k.startswith("_")}, "observed": "; ".join(bad) if bad else None}
     return bool(bad), detail
@@ -1089,12 +1126,18 @@ def test_module(path):
 
 
 def enc_run(it, fn, args):
-    ex = Explorer()
+    ex = Explorer(max_steps=400000)
     ctx = Ctx(ex, ())
     try:
         r = it.call(ctx, fn, args)
     except Panic as p:
         return ("panic", p.msg)
+    except NoProgress as e:
+        return ("diverges", str(e))
+    except Inconclusive as e:
+        if "step bound exceeded" not in str(e):
+            raise
+        return ("diverges", str(e))
     if ex.forks:
         raise Inconclusive("concrete run of %s forked" % fn)
     return ("ok", r)
@@ -1114,7 +1157,7 @@ def validate_translator(par, lay, nat):
     line_texts = [s.replace("\\r", "\r").replace("\\n", "\n") if "\\" in s else s for s in line_texts]
     if len(lex_texts) < 20 or len(line_texts) < 8:
         raise Inconclusive("unit-test inputs of lexer.rs / lib.rs not found (%d / %d; the test modules changed shape)" % (len(lex_texts), len(line_texts)))
-    it = make_interp(par, lay)
+    it = make_interp(par, lay, progress_observer=True)
     runs = 0
     all_lex = lex_texts + EXTRA_TEXTS
     reals = native_batch(nat, "tokens", [x.encode("utf-8") for x in all_lex])
@@ -1122,9 +1165,9 @@ def validate_translator(par, lay, nat):
         tb = s.encode("utf-8")
         st, r = enc_run(it, "lex", [Slice([Int(b, "u8") for b in tb], "str")])
         runs += 1
-        if st == "panic" or "panic" in real or "hang" in real:
-            if (st == "panic") != ("panic" in real):
-                raise Inconclusive("encoding wrong: lex(%r): executor %s, real function %s" % (s, st if st == "panic" else "returns", real))
+        if st != "ok" or "panic" in real or "hang" in real:
+            if (st == "panic") != ("panic" in real) or (st == "diverges") != ("hang" in real):
+                raise Inconclusive("encoding wrong: lex(%r): executor %s, real function %s" % (s, st if st != "ok" else "returns", real))
             continue
         toks, starts, errs = parse_native_tokens(real)
         e_toks = [token_name(t) for t in r.fields[lay.rs("tokens")].elems]
@@ -1143,6 +1186,10 @@ def validate_translator(par, lay, nat):
         text = Slice([Int(b, "u8") for b in tb], "str")
         st, ls = enc_run(it, "compute_line_starts", [text])
         runs += 1
+        if st == "diverges":
+            if "hang" not in real:
+                raise Inconclusive("encoding wrong: compute_line_starts(%r) diverges in the executor only" % s)
+            continue
         if st == "panic":
             if not real.get("line_starts", "").startswith("panic"):
                 raise Inconclusive("encoding wrong: compute_line_starts(%r) panics in the executor only" % s)
@@ -1166,7 +1213,7 @@ def validate_translator(par, lay, nat):
                 raise Inconclusive("encoding wrong: get_line_content(%r, %d): executor %s, real function %s" % (s, k, got, want))
             runs += 1
     # parser entry: green tree (pre-order kinds and lengths) and the error list, executor vs real parser
-    itp = make_interp(par, lay, parser=True)
+    itp = make_interp(par, lay, parser=True, progress_observer=True)
     ptexts = [x for x in all_lex if len(x.encode("utf-8")) <= 40] + PARSE_TEXTS
     reals = native_batch(nat, "parse", [x.encode("utf-8") for x in ptexts])
     for s, real in zip(ptexts, reals):
@@ -1179,10 +1226,16 @@ def validate_translator(par, lay, nat):
             st = "ok"
         except Panic as e:
             st, r = "panic", e.msg
+        except NoProgress as e:
+            st, r = "diverges", str(e)
+        except Inconclusive as e:
+            if "step bound exceeded" not in str(e):
+                raise
+            st, r = "diverges", str(e)
         runs += 1
-        if st == "panic" or "panic" in real or "hang" in real:
-            if (st == "panic") != ("panic" in real):
-                raise Inconclusive("encoding wrong: parse(%r): executor %s, real parser %s" % (s, r if st == "panic" else "returns", real))
+        if st != "ok" or "panic" in real or "hang" in real:
+            if (st == "panic") != ("panic" in real) or (st == "diverges") != ("hang" in real):
+                raise Inconclusive("encoding wrong: parse(%r): executor %s, real parser %s" % (s, r if st != "ok" else "returns", real))
             continue
         dump, toks, conds = [], [], []
         green_walk(field(unbox(unbox(r.fields[0]).fields[0]), "root"), dump, toks, conds)
@@ -1301,12 +1354,14 @@ def run2(pid, tier, t0, par, lay, nat):
 
 
 OUTSIDE = [
-    "the parser (parser.rs): error recovery, event list, every token advanced exactly once",
-    "tree construction (green.rs / build_tree): node length == sum of the children, concatenated token text == input, re-parse stability",
+    "the parser (parser.rs), tree construction (build_tree / green.rs) and File::new on texts longer than the parse bound below (2-3 bytes: every "
+    "single token, every pair/triple of short tokens, i.e. mostly the error-recovery paths of parse_element); grammar-directed programs, "
+    "repository sources and their mutants are not reached",
+    "re-parse stability (text that parses without errors yields the same tree when parsed again); syntax-node spans (ast.rs SyntaxNode offsets)",
     "semantic analysis (dora-frontend) and the driver (exit status, readable messages instead of a backtrace)",
     "nesting depth of any construct; string templates nested deeper than 2 levels in the step family (a third level needs >= 10 bytes)",
     "texts longer than the bounds below (whole texts by brute force, single loop iterations by induction up to the step bound)",
-    "the induction from the step obligations to whole texts is an argument on paper (stated in obligation_kinds), not a solver query; "
+    "the induction from the step obligations to whole texts is an argument on paper (stated in `induction`), not a solver query; "
     "what the solver decides is every branch and assertion inside one iteration from every invariant state",
     "texts of 4 GiB and more (u32 offsets: `offset()` panics by design with `overflow`)",
     "which non-ASCII characters are letters/digits: irrelevant here (identifiers and digits are ASCII ranges in this lexer)",
@@ -1324,6 +1379,7 @@ def finish(pid, tier, t0, cfg, reach, results, nat, nval, n_lex_texts, n_line_te
     hooks = {"Lexer::read_token": "observer around the real function (reports a call that does not move the cursor)",
              "keywords_in_map": "the real function, executed once per interpreter instance, value reused"}
     reported = set()
+    unreproduced = []
     for name, (out, st) in results.items():
         fam = name.split("/")[0]
         obl = OBLIGATIONS[pid][fam]
@@ -1361,14 +1417,22 @@ def finish(pid, tier, t0, cfg, reach, results, nat, nval, n_lex_texts, n_line_te
             key = "%s/%s" % (fam, v["kind"])
             ok, detail = replay_violation(nat, pid, v)
             if not ok:
-                raise Inconclusive("counterexample of %s (%s) does not reproduce on the real function: %s" %
-                                   (name, v["what"], json.dumps(detail, default=str)[:700]))
+                unreproduced.append("counterexample of %s (%s) does not reproduce on the real function: %s" %
+                                    (name, v["what"], json.dumps(detail, default=str)[:700]))
+                continue
             if key not in reported:
                 reported.add(key)
                 rep.violation(key, "%s — real lex: %s (text bytes %s)" % (v["what"], detail["observed"], detail["text_hex"]), detail)
         if not bad:
             discharged += len(obl)
         per[name]["violated"] = sorted(set(x["kind"] for x in out.violations))
+    if unreproduced:
+        # a counterexample that the real build does not reproduce is never reported; it makes the run inconclusive unless
+        # other counterexamples of this run did reproduce (those are reported, the rest is kept in the evidence)
+        for u in unreproduced[:5]:
+            log("[%s] not reproduced: %s" % (pid, u))
+        if not rep.new and not rep.known_hit:
+            raise Inconclusive(unreproduced[0])
     need = ["identifier", "keyword", "number-with-suffix", "string-or-char-with-escape", "error:UnclosedString", "error:UnclosedComment", "error:UnclosedChar",
             "error:UnknownChar", "multi-byte-character-inside-string", "multi-byte-character-2", "multi-byte-character-3", "multi-byte-character-4",
             "token:TEMPLATE_LITERAL", "token:TEMPLATE_END_LITERAL", "token:FLOAT_LITERAL", "token:MULTILINE_COMMENT", "token:LINE_COMMENT",
@@ -1416,15 +1480,15 @@ def finish(pid, tier, t0, cfg, reach, results, nat, nval, n_lex_texts, n_line_te
                          "the induction argument from single loop iterations to whole texts (paper)"],
         "functions_encoded": sorted(fns),
         "std_models_used": sorted(m for m in models_used if m not in hooks),
-        "hooks": hooks, "second_solver": second,
+        "hooks": hooks, "second_solver": second, "counterexamples_not_reproduced": unreproduced[:20],
         "bounds": bounds,
         "paths": paths, "paths_per_family": fam_paths, "queries": queries, "assertion_queries": checks, "pruned_branches": pruned,
         "solver_time_s": round(stime, 2), "per_harness": per,
         "vacuity_witnesses": sorted(vac), "translator_validation_runs": nval,
         "samples": samples,
         "outside_the_claim": OUTSIDE,
-        "level_note": "partial claim: only the lexer and the line table of dora-parser are decided; parser, tree, semantic analysis and driver - the largest "
-                      "part of the property - are outside",
+        "level_note": "partial claim: the lexer and the line table of dora-parser are decided up to the stated bounds, the parser and the green tree only on "
+                      "texts of <= %d bytes; longer programs through parser and tree, semantic analysis and driver - the largest part of the property - are outside" % reach["parse"],
     }
     assumptions = ["source texts are well-formed UTF-8 (they are &str)", "usize is 64 bit",
                    "Vec/&str/String modelled as concrete-length sequences of symbolic elements; HashMap<&str, TokenKind> as a finite map with concrete keys "
